@@ -56,6 +56,7 @@ def run(ctx):
         "that each rule function returns its failing value after every error report. Does not decide that the rule functions accept exactly the valid kernels.")
     R.rule("C22-R1", "transform call in a backend's afterParsing is dominated by the validation gate and by `success` being true", floor=25)
     R.rule("C22-R2", "okl/validate is written false only for withLauncher's launcher parser", floor=1)
+    R.rule("C22-R5", "a verdict computed in a loop over several items is accumulated: no item's failure is overwritten by a later item", floor=5)
     R.rule("C22-R3", "validator structure and error discipline of the rule functions", floor=35)
     R.rule("C22-R4", "each backend parser registers the OKL attributes on construction", floor=7)
 
@@ -339,6 +340,38 @@ def run(ctx):
     rets = [n for n in kb.walk() if n["k"] == "ReturnStmt"]
     ok = n_err >= 2 and len(rets) == 1 and "isEmpty" in render(rets[0], False) and "filter" in render(rets[0], False)
     R.ob("C22-R3", ok, kb.q, "inventory:break/continue directly in an OKL loop", "%s:%d" % (kb.relfile, kb.d["line"]), "%d error reports in the filter; valid iff the filtered set is empty" % n_err)
+
+    # ---- R5 ---------------------------------------------------------------------
+    n_loops = 0
+    for f in prog.funcs.values():
+        if f.d.get("tmpl") == "inst" or not f.relfile.endswith("lang/modes/okl.cpp"):
+            continue
+        for lp in [n for n in f.walk() if n["k"] in ("ForStmt", "WhileStmt", "DoStmt", "CXXForRangeStmt") and not n.get("mac")]:
+            n_loops += 1
+            inside = {x["i"] for x in walk(lp)}
+            declared_in = {x.get("d") for x in walk(lp) if x["k"] == "VarDecl"}
+            for w in walk(lp):
+                t = write_target(w)
+                if t is None or w["k"] != "BinaryOperator" or w.get("op") != "=":
+                    continue
+                tv = strip(t)
+                if tv["k"] != "DeclRefExpr" or not tv.get("loc") or tv.get("d") in declared_in or f.type(tv).replace("const ", "").strip() != "bool":
+                    continue
+                rhs = strip(kids(w)[1])
+                if literal(rhs) in (True, False) or any(x["k"] == "DeclRefExpr" and x.get("d") == tv["d"] for x in walk(rhs)):
+                    continue
+                used_after = any(x["k"] == "DeclRefExpr" and x.get("d") == tv["d"] and x["i"] not in inside and f.cfg.position(x) and f.cfg.position(w) and
+                                 f.cfg.find_path(f.cfg.position(w), lambda b, i, e, x=x: e == x["i"], lambda b, i, e: False) is not None for x in f.walk())
+                R.ob("C22-R5", not used_after, f.q, "verdict:`%s` assigned in a loop and read after it" % tv.get("n", "?"), f.site(w),
+                     "per-item value only" if not used_after else
+                     "the verdict is overwritten on every pass (`%s`): only the last item decides, an earlier item that breaks the rule is accepted - by every backend, since the validators are shared" % noid(render(w, False))[:80])
+    R.ob("C22-R5", n_loops >= 5, NS + "*", "verdict:%d validator loops scanned" % n_loops, "src/occa/internal/lang/modes/okl.cpp", "loops of the shared validators", nontrivial=False)
+    for f in prog.funcs.values():
+        if f.d.get("tmpl") == "inst" or not f.relfile.endswith("lang/modes/okl.cpp"):
+            continue
+        for w in f.walk():
+            if w["k"] == "CompoundAssignOperator" and w.get("op") in ("&=", "|=") and f.type(strip(kids(w)[0])).replace("const ", "").strip() == "bool":
+                R.ob("C22-R5", True, f.q, "verdict:accumulated with %s" % w["op"], f.site(w), noid(render(w, False))[:80])
 
     # ---- R4 ---------------------------------------------------------------------
     for b in BACKENDS:
